@@ -21,7 +21,8 @@
 //     DecryptSharedSecret / GenerateServerID / AuthenticateJoin status mapping) whose HTTP transport is
 //     replaced by a scripted session-server outcome; records every AuthenticateJoin call.
 //   - Events            an event.Manager recorder (PreLogin, GameProfileRequest, Login, PostLogin,
-//     Disconnect) that can also script the PreLogin result.
+//     Disconnect) that can also script the PreLogin result and let the
+//     PreLogin subscriber send login plugin messages (Events.PluginMessages).
 //   - ListenBackend     loopback TCP listener handing each accepted connection to a callback as a Wire
 //     (for later builders: C15/C16/C31 fake backends).
 //   - RunParallel       runs n independent jobs `width`-wide and returns results in index order
